@@ -61,7 +61,9 @@ Inductive c11_case :=
    instance for another reason, so nothing could be observed) *)
 | MsgObs (url : string) (signer_fields : list string) (routable : bool) (validate_rejects_bad_creator : option bool)
 (* all type URLs under /canine_chain. registered as sdk.Msg implementations in the app *)
-| MsgSet (urls : list string).
+| MsgSet (urls : list string)
+(* the amino name an instance's GetSignBytes() carries: Some n when the bytes are {"type": n, "value": …} *)
+| MsgAmino (url : string) (name : option string).
 
 Definition c11_ok (c : c11_case) : bool :=
   match c with
@@ -91,4 +93,14 @@ Definition c11_ok (c : c11_case) : bool :=
   | MsgSet urls =>
     let turls := map m_url (filter registered_b msg_table) in
     subset_strings urls turls && subset_strings turls urls && nodup_strings urls
+  | MsgAmino url name =>
+    match find_row msg_table url with
+    | None => false
+    | Some r =>
+      match m_amino r, name with
+      | Some a, Some b => String.eqb a b
+      | None, None => true
+      | _, _ => false
+      end
+    end
   end.
